@@ -116,11 +116,17 @@ def run(pid, tier):
         wv, wsteps, wscen = large_plan_walk(tier)
         violations = list(violations) + wv
         walk = {"large_scenarios_walked": wscen, "steps": wsteps}
-    if errors:
+    concrete = [v for v in violations if v["property"] == pid]
+    if errors and not concrete:
         raise HarnessError("; ".join(errors[:3]))
+    if errors:
+        # a concrete, replayable violation found on one scenario stands whatever went wrong on another one
+        import sys
+        for e in errors[:3]:
+            print(f"NOTE harness error on another scenario (violations are still reported): {e[:300]}", file=sys.stderr)
     # vacuity: the outcome classes this property needs must have been exercised
     missing = [c for c in NEEDED_CLASSES.get(pid, []) if agg["outcome_classes"].get(c, 0) == 0]
-    if missing:
+    if missing and not concrete:
         raise HarnessError(f"vacuous exploration for {pid}: outcome classes never exercised: {missing}")
     samples = [{"scenario": r[0], "binding": r[1], "hosts": r[2], "actions": r[3], "states": r[4],
                 "transitions": r[5]} for r in rotate(agg["per_scenario"], 4)]
